@@ -409,7 +409,11 @@ pub fn run(cx: &Cx) -> Report {
                 b.defs.len()
             }
             Err(e) => {
-                rep.inconclusive = Some(format!("cannot load the bundled database: {}", e));
+                rep.violations.push(Violation {
+                    phase: "bundled-original-order".into(),
+                    case: json!({"bundled": which, "perm": Perm::Rotate(0)}),
+                    detail: format!("[load-panicked] loading the bundled definitions in their shipped order failed: {}", e),
+                });
                 return rep;
             }
         };
